@@ -98,14 +98,22 @@ func (h *Harness) slowReaders(gen *Gen, nFill, nHist int) {
 		}
 		return b
 	}
-	for i := 0; i < nHist+3; i++ {
+	for i := 0; i < nHist+6; i++ {
 		k1 := g.Pick(1, 7, 100, 25000, 49999, 50000)
-		k2 := 50000 - k1 + g.Pick(-1, 0, 1, 1)
-		switch i % 5 {
-		case 3:
-			k2 = g.Pick(0, 1, 2, 50000)
+		k2 := 0
+		switch i % 6 {
+		case 0: // one entry under the limit in all
+			k2 = 50000 - k1 - 1
+		case 1: // exactly the limit
+			k2 = 50000 - k1
+		case 2: // one over
+			k2 = 50000 - k1 + 1
+		case 3: // a short request behind a short one
+			k1, k2 = g.Pick(1, 7, 100), 1+g.Intn(20)
 		case 4:
-			k2 = 1 + g.Intn(20)
+			k2 = g.Pick(0, 1, 2, 50000)
+		case 5: // far over
+			k2 = 50000
 		}
 		if k2 < 0 {
 			k2 = 0
